@@ -271,6 +271,11 @@ static void run_rd(std::map<std::string, std::string>& kv) {
             { photon::scoped_rwlock wl(store->rw_lock(), photon::WLOCK); store->evict(0); }
             find->second->truncate_done = false;
             tok = "0:-:";
+        } else if (f[0] == "P") {
+            // ICacheStore::prefetch -> do_prefetch -> try_refill_range -> do_refill_range(input == nullptr)
+            ssize_t ret = store->prefetch((size_t)atoll(f[2].c_str()), atoll(f[1].c_str()), 0);
+            for (int k = 0; k < 4; k++) photon::thread_yield();
+            tok = ll(ret) + ":-:";
         } else { tok = "BADOP"; }
         std::string evs; for (auto& e : c.log) { if (!evs.empty()) evs += ","; evs += e; }
         tok += evs.empty() ? "-" : evs;
